@@ -99,13 +99,38 @@ pub fn lifecycle(trace: &[Value]) -> Vec<Value> {
             match ev {
                 "Connect" | "Accept" => {
                     // first probe of the connection
-                    let (st, idle, pto3) = match e.get("post") {
-                        Some(p) => (st_name(&p["st"]), p["idle"].as_i64().unwrap_or(-1), max_pto3(p)),
-                        None => ("hs", -1, 0),
+                    let (idle, pto3) = match e.get("post") {
+                        Some(p) => (p["idle"].as_i64().unwrap_or(-1), max_pto3(p)),
+                        None => (-1, 0),
                     };
-                    out.push(json!({"ev":"Reset","run":run,"n":n,"c":c,"t":e["t"],"st":st,
+                    out.push(json!({"ev":"Reset","run":run,"n":n,"c":c,"t":e["t"],"st":"hs",
                         "idle":idle,"pto3":pto3,"hostile":hostile,"late":late}));
                     have_reset = true;
+                    if ev == "Accept" {
+                        // `accept` processes the connection-creating datagram (and any buffered
+                        // ones): present that as the first receive step
+                        let p = &e["post"];
+                        let mut closes = Vec::new();
+                        for prev in trace[..from].iter().rev() {
+                            if prev["ev"] == "Rx" && prev["kind"] == "new" && prev["n"].as_i64() == Some(n) {
+                                if let Some(pk) = prev["pk"].as_array() {
+                                    for q in pk {
+                                        for f in frames_of(q) {
+                                            if f["f"] == "CONNECTION_CLOSE" {
+                                                closes.push(json!({"app":f["app"],"code":f["code"],"reason":f["reason"]}));
+                                            }
+                                        }
+                                    }
+                                }
+                                break;
+                            }
+                        }
+                        let kind = if closes.is_empty() { "other" } else { "peerclose" };
+                        out.push(json!({"ev":"Rx","t":e["t"],"st":st_name(&p["st"]),"close":p["close"],
+                            "ctm":p["tm"][2],"itm":p["tm"][1],"pto3":max_pto3(p),
+                            "kind":kind,"closes":closes,"authed":p["authed"],"idle":p["idle"],"pidle":p["idle"],
+                            "id":-1}));
+                    }
                     if let Some(p) = e.get("post") {
                         last_post = Some(p);
                     }
